@@ -2,5 +2,7 @@ import IweModel.Props.C16
 #print axioms Iwe.C16.import_order_irrelevant
 #print axioms Iwe.C16.insert_order_irrelevant
 #print axioms Iwe.C16.paths_listing_canonical
+#print axioms Iwe.C16.cli_listing_canonical
+#print axioms Iwe.C16.cli_paths_same_lines
 #print axioms Iwe.C16.export_is_pointwise
 #print axioms Iwe.C16.equal_rank_order_depends_on_history
